@@ -162,3 +162,48 @@ pub fn c07_election() {
         }
     }
 }
+
+/// local lemma behind "the oldest node wins": a candidate that was turned secondary by an older node's candidacy while it
+/// pauses after collecting its acknowledgements must not claim the primary role when it wakes up. One node, one peer; the
+/// harness plays the peer (acknowledges the candidacy) and the older candidate (demotes the node at a solver-chosen pause).
+pub fn c07_pause_recheck() {
+    unsafe { vstd::vfs::ENV.push(("NUN_ELECTION_TIMEOUT", "40")); }
+    let mut node = mk_cnode("n2", 2, ClusterRole::Secoundary);
+    let (tx, mut peer_rx): (Sender<String>, Receiver<String>) = channel(100);
+    node.dbs.add_cluster_member(ClusterMember { name: String::from("n2"), role: ClusterRole::Secoundary, sender: None });
+    node.dbs.add_cluster_member(ClusterMember { name: String::from("n1"), role: ClusterRole::Secoundary, sender: Some(tx) });
+    vsym::set_cooperative(true);
+    let dbs = node.dbs.clone();
+    let job = vsym::spawn_suspended(move || { crate::election_ops::start_new_election(&dbs); true });
+    let demote_at = vsym::choice("demote-at-pause", 8);
+    vsym::tag_i("demote-at-pause", demote_at as i64);
+    let mut pause = 0; let mut demoted = false; let mut acked = false; let mut won_before_demotion = false;
+    while pause < 12 {
+        let finished = vsym::resume(&job);
+        if finished { break; }
+        // the candidacy travels: replication loop registers the pending operation and sends it to the peer, the peer acknowledges
+        poll_once(&mut node.repl);
+        if let Ok(Some(line)) = peer_rx.try_next() {
+            let mut it = line.splitn(3, " "); let _rp = it.next(); let id = it.next().unwrap_or("0").parse::<u64>().unwrap_or(0);
+            if pause >= 1 && !acked { node.dbs.acknowledge_pending_opp(id, &String::from("n1")); acked = true; }
+            else { peer_rx_requeue(&node, id); }
+        } else if !acked {
+            // the message was taken at an earlier pause: acknowledge now
+            let ids: Vec<u64> = node.dbs.pending_opps.read().unwrap().keys().map(|k| *k).collect();
+            if pause >= 1 && ids.len() > 0 { node.dbs.acknowledge_pending_opp(ids[0], &String::from("n1")); acked = true; }
+        }
+        if pause == demote_at && !demoted {
+            if node.dbs.get_role() == ClusterRole::Primary { won_before_demotion = true; }
+            // an older node's candidacy arrives: election_eval turns this node into a secondary
+            node.dbs.node_state.swap(ClusterRole::Secoundary as usize, Ordering::Relaxed);
+            demoted = true;
+            vsym::tag(if acked { "demoted-after-acks" } else { "demoted-before-acks" });
+        }
+        pause += 1;
+    }
+    vsym::cover("pause.demoted-after-acks", demoted && acked);
+    if demoted && acked && !won_before_demotion {
+        vsym::check("election.no-claim-after-being-demoted-during-the-final-pause", node.dbs.get_role() != ClusterRole::Primary);
+    }
+}
+fn peer_rx_requeue(_node: &CNode, _id: u64) {}
